@@ -6,7 +6,7 @@ let bytes_of_hex s =
 let hex_of_bytes l =
   String.concat "" (List.map (fun b ->
     let h = string_of_z b in if String.length h = 1 then "0" ^ h else h) l)
-let split_on c s = if s = "" || s = "-" then [] else String.split_on_char c s
+let split_on c s = if s = "" || s = "-" || s = "_" then [] else String.split_on_char c s
 
 (* n | q<0/1> | a<k>:<0/1> *)
 let fault_of_token t =
